@@ -373,7 +373,10 @@ func (osObj *VirtualOS) findMount(path string) (*Mount, string, bool) {
 			// Exact match
 			return v, "/", true
 		}
-		if strings.HasPrefix(path, k) {
+		// A mount point only matches whole path components: "/tmp" contains
+		// "/tmp/x" but not "/tmpfoo". (k == path was handled above, so path
+		// is longer than k here.)
+		if strings.HasPrefix(path, k) && (strings.HasSuffix(k, "/") || path[len(k)] == '/') {
 			// Prefix match. Keep looking to confirm this is the longest match.
 			if match == nil || len(k) > len(match.Target) {
 				match = v
